@@ -33,7 +33,10 @@ RULE = ("Hypothesis draws a sample (1..4 atoms: natural elements, isotopes, ions
         "exposure, rest times, abundance function change); after each, decay_time for two targets relative to A(0), "
         "for the absolute targets of the previous step, and after a first question for 10 A(0), must equal the answer "
         "of a never-questioned fresh Sample given the same call and satisfy the oracle; the rest-time list and the "
-        "shared ActivationEnvironment must be unchanged.")
+        "shared ActivationEnvironment must be unchanged. families (deterministic, complete): every daughter name that "
+        "activation.dat (independent reader) lists under two parent elements x both parents in one formula (both "
+        "orders; atom ratios 1:1, 30:1, 1:30) x a thermal-only and a fast-dominated beam x targets = the true total "
+        "activity at 0.5, 3, 8 of each half-life tabulated for that daughter plus 1e-6..0.9 of A(0); same oracle.")
 ASSUMPTIONS = [
     "the activities computed by calculate_activation are taken as given (C14 decides them); only the relation "
     "between them and the returned time is checked",
@@ -346,6 +349,80 @@ def task_reuse(ctx, n):
     ctx.search("reuse", reuse_cases(E), check_reuse, n)
 
 
+# ----------------------------------------------------------------------
+# daughters listed under several parent elements (sometimes with different half-lives)
+FAMILY_ENVS = [
+    dict(fluence=1e10, Cd=0.0, fast=0.0, exposure=10.0, mass=1.0),
+    dict(fluence=1e12, Cd=20.0, fast=0.5, exposure=100.0, mass=0.1),
+]
+FAMILY_KS = [1e-6, 1e-3, 0.1, 0.5, 0.9]
+FAMILY_MULT = [0.5, 3.0, 8.0]
+
+
+def check_family(ctx, case):
+    """A sample containing both parents of a shared daughter.  Targets: the true
+    total activity at 0.5, 3 and 8 half-lives of that daughter (every half-life the
+    table lists for it under the two parents), where its terms matter, and the
+    generic fractions of A(0); asked of a sample activated with rest_times=[0] and
+    of one activated with the case's rest times."""
+    E = env()
+    atoms, envd, rests = case["atoms"], case["env"], list(case["rests"])
+    formula = "".join(c14.atom_string(sp, cnt) for sp, cnt in atoms)
+    try:
+        base = activate(E, formula, envd, [0.0])
+        second = activate(E, formula, envd, rests)
+    except Exception:  # noqa   (C14's business)
+        ctx.count("skipped:activation-raises")
+        return
+    products = [(vals[0], ai.Thalf_hrs) for ai, vals in base.activity.items()]
+    zero = [a for a, T in products if a <= 0]
+    A0 = ra.total_activity(products, 0.0) if products else D(0)
+    ctx.case(("family", formula, c14.envkey(dict(envd, rests=rests))), nontrivial=True,
+             sample={"daughter": case.get("daughter"), "formula": formula, "env": envd, "rests": rests},
+             cls=["family", "family:" + ("fast" if envd["fast"] else "thermal-only")])
+    if not products or A0 <= 0:
+        ctx.count("family:no-activity")
+        return
+    targets = []
+    for T in case["halflives"]:
+        for m in case.get("mult", FAMILY_MULT):
+            a = float(ra.total_activity(products, T * m))
+            if a > 0 and math.isfinite(a):
+                targets.append((a, "A(%g h)" % (T * m)))
+    for k in case.get("ks", FAMILY_KS):
+        a = float(A0 * D(k))
+        if a > 0 and math.isfinite(a):
+            targets.append((a, "%g*A(0)" % k))
+    for target, label in targets:
+        k = float(D(target) / A0)
+        for L, s in (([0.0], base), (rests, second)):
+            r = outcome(s, target)
+            again = outcome(s, target)
+            if again != r:
+                raise Violation("c15:reuse:decay-time-differs", "%s, rest times %r: decay_time(%r) asked twice gave %r then %r"
+                                % (formula, L, target, r[1:], again[1:]), dict(case, kind="family", formula=formula))
+            ctx.count("family:outcome:" + r[0])
+            judge(dict(case, kind="family", formula=formula, failing_target=label), formula, envd, k, products, A0, target,
+                  relation_of(A0, target), zero, L, cause(products, L, zero), r)
+
+
+def family_cases(E):
+    out = []
+    for n, (name, atoms, hl) in enumerate(c14.family_formulas(E)):
+        for m, envd in enumerate(FAMILY_ENVS):
+            out.append(dict(kind="family", daughter=name, atoms=atoms, env=envd, halflives=hl,
+                            rests=[[1.0, 24.0], [360.0, 2.0], [0.0, 5.0]][(n + m) % 3]))
+    return out
+
+
+def task_families(ctx, part, parts):
+    E = env()
+    cases_ = family_cases(E)
+    ctx.extra["family_cases"] = len(cases_)
+    for case in cases_[part::parts]:
+        ctx.check(check_family, case)
+
+
 def task_search(ctx, n):
     E = env()
     ctx.search("decay", cases(E), check_case, n)
@@ -372,10 +449,12 @@ def tasks(tier):
     if tier == "quick":
         out = [("decay-%d" % i, task_search, dict(n=350)) for i in range(5)]
         out.append(("reuse", task_reuse, dict(n=200)))
+        out += [("families-%d" % i, task_families, dict(part=i, parts=3)) for i in range(3)]
         out.append(("fixed", task_fixed, {}))
         return out
     out = [("decay-%02d" % i, task_search, dict(n=10000)) for i in range(13)]
     out += [("reuse-%d" % i, task_reuse, dict(n=4000)) for i in range(2)]
+    out += [("families-%d" % i, task_families, dict(part=i, parts=2)) for i in range(2)]
     out.append(("fixed", task_fixed, {}))
     return out
 
@@ -383,5 +462,7 @@ def tasks(tier):
 def replay(ctx, case):
     if case.get("kind") == "reuse":
         check_reuse(ctx, case)
+    elif case.get("kind") == "family":
+        check_family(ctx, case)
     else:
         check_case(ctx, case)
